@@ -68,6 +68,9 @@ def main(tier):
             jobs.append(dict(par=dict(stack=st, seed=seed() + 81 + si, level=lv, entropy="low" if (si + len(st)) % 2 else "high"),
                              sid=sid, **s))
             sid += 1
+    for li, s in enumerate(long_scenarios(1 + seed() % 5)[:2 if tier == "quick" else 6]):
+        for st in ("raw", "enc", "comp", "comp+enc"):
+            jobs.append(dict(par=dict(stack=st, seed=seed() + 95 + li, level=[0, 5, 11][li % 3]), sid=9500 + len(jobs), cut_stride=2, **s))
     traces = run_repair_sweeps(jobs, "s20", "c05")
     validate_repair_traces(v, "C05", traces, ev, CLAUSES)
     # implementation-level model of the repair loop (spec/RepairLoop.tla): every behaviour replayed on convert_to_archive
